@@ -735,6 +735,16 @@ class TextXVisitor(RRELVisitor):
     def visit_rule_name(self, node, children):
         rule_name = str(node)
 
+        if rule_name.startswith("__asgn"):
+            # Names used for the internal assignment nodes of the parser model.
+            line, col = self.grammar_parser.pos_to_linecol(node.position)
+            raise TextXSemanticError(
+                f'Rule name "{rule_name}" is reserved at {(line, col)}.',
+                line,
+                col,
+                filename=self.metamodel.file_name,
+            )
+
         if self.debug:
             self.dprint(f"Creating class: {rule_name}")
 
